@@ -6,11 +6,11 @@ REPO = os.environ.get('VERIF_REPO', '/repo')
 
 def listing():
     with tempfile.NamedTemporaryFile(suffix='.go') as tf:
-        r = subprocess.run([sys.executable, f'{VERIF}/harness/gen/gen_tl.py', REPO, tf.name], capture_output=True, text=True)
+        r = subprocess.run([sys.executable, f'{VERIF}/harness/gen/gen_tl_calls.py', REPO, tf.name], capture_output=True, text=True)
     out = []
     for line in r.stdout.split('\n'):
         p = line.split()
-        if len(p) == 5:
+        if len(p) == 5 and p[0] in ('type', 'req', 'call'):
             out.append((p[0], p[1], int(p[2]), int(p[3]), int(p[4])))
     return out
 
@@ -19,6 +19,11 @@ def instances(tier):
     L = 'liteclient'
     out = []
     for kind, gt, nbytes, nvec, nopt in listing():
+        if kind == 'call':
+            for bl in ([0, 3] if nbytes else [0]):
+                for vl in ([0, 1] if nvec else [0]):
+                    out.append((L, f'VH_C10_call_{gt}', [bl, vl, -1 if nopt <= 6 else 0], {'weight': 5 + nbytes * bl + 20 * vl}))
+            continue
         bls = [0]
         if nbytes:
             bls = [0, 3, 254] if tier == 'quick' else [0, 1, 2, 3, 4, 253, 254, 255, 256]
@@ -33,9 +38,9 @@ def instances(tier):
 
 CHECK = dict(
     id='C10', pkgs=['liteclient'], init_pkgs=['std:io', 'liteclient'], instances=instances, opts={'budget_s': 1500, 'unwind': 1200},
-    gen=[('harness/gen/gen_tl.py', 'liteclient', 'gen_tl.go')],
-    level_text='For EVERY declaration and function of the checked-in lite_api.tl a harness is generated from the schema text: a value of the generated Go type with symbolic fields (all mode-bit combinations, byte strings of the stated lengths incl. the 253/254 boundary, vectors of 0..2 items, both constructors of unions) and, independently, the byte layout the schema prescribes (LE32/LE64, raw int256, Bool ids, length-prefixed zero-padded bytes, LE32 vector count, optional iff mode bit, LE32 constructor id for boxed values). MarshalTL must equal that layout byte for byte, UnmarshalTL of the layout must give the value back and consume everything, and LiteapiRequestDecoder(function id + layout) must return the request.',
-    level_note='The specification serialiser is emitted by harness/gen/gen_tl.py from the schema (it shares no code with package tl). Not decided: that (*Client).LiteServer* hand exactly id+layout to the transport (the transport cannot be stubbed natively; the function ids are checked through the decoder table instead), and the textual identity "checked-in file == generator output".',
+    gen=[('harness/gen/gen_tl_calls.py', 'liteclient', 'gen_tl.go')],
+    level_text='For EVERY declaration and function of the checked-in lite_api.tl a harness is generated from the schema text: a value of the generated Go type with symbolic fields (all mode-bit combinations, byte strings of the stated lengths incl. the 253/254 boundary, vectors of 0..2 items, both constructors of unions) and, independently, the byte layout the schema prescribes (LE32/LE64, raw int256, Bool ids, length-prefixed zero-padded bytes, LE32 vector count, optional iff mode bit, LE32 constructor id for boxed values). MarshalTL must equal that layout byte for byte, UnmarshalTL of the layout must give the value back and consume everything, and LiteapiRequestDecoder(function id + layout) must return the request; every generated request method (*Client).LiteServer* is run against a stub transport (liteServerRequest replaced through the build overlay): the bytes handed to the transport are function id + schema layout of the request, and any value of the result type laid out per schema comes back as that value.',
+    level_note='The specification serialiser is emitted by harness/gen/gen_tl.py from the schema (it shares no code with package tl). Not decided: the textual identity "checked-in file == generator output".',
     bounds={'quick': {'byte string lengths': [0, 3, 254], 'vector lengths': [0, 2]}, 'thorough': {'byte string lengths': [0, 1, 2, 3, 4, 253, 254, 255, 256], 'vector lengths': [0, 1, 2]}},
-    outside_claim=['byte strings >= 2^24', '(*Client).LiteServer* request wrappers beyond their id (need a live transport)', 'generator output == checked-in file (textual)', 'tlb/integers.go generator pair (see C03)'],
+    outside_claim=['byte strings >= 2^24', 'the transport below liteServerRequest, lite-server error answers', 'generator output == checked-in file (textual)', 'tlb/integers.go generator pair (see C03)'],
 )
